@@ -489,3 +489,18 @@ PROPS["C14"]["assumptions"] += ["BTreeMap behaves as a dictionary (slot-array mo
                                 "order over distinct keys (entry-list model)"]
 PROPS["C14"]["trusted_base"] = KANI_TB + MIR_TB
 PROPS["C14"]["mir"] = True
+
+
+PROPS["C03"]["functions"].append(
+    "radix_engine_interface::blueprints::resource::LiquidNonFungibleResource::{take_by_ids, put, take_all} (MIR->SMT; "
+    "the container's IndexSet as a bounded symbolic slot array, the argument set as an entry list)")
+PROPS["C03"]["bounds"] += ("; non-fungible container: any content of <= 4 ids (symbolic), requests of 0..3 distinct "
+                           "symbolic ids (put: 0..2); membership compared for an arbitrary probe id")
+PROPS["C03"]["outside"] = ("take_by_amount (depends on the set's iteration order), larger id sets, total-supply "
+                           "bookkeeping in the resource managers, reconcile_resource_state_and_events, and that every "
+                           "engine path moves value only through these containers: the end-to-end conservation "
+                           "statement is NOT decided, only its container kernels")
+PROPS["C03"]["assumptions"] += ["IndexSet behaves as a set (slot-array model: swap_remove / extend / clear; iteration "
+                                "order not modelled)"]
+PROPS["C03"]["trusted_base"] = KANI_TB + MIR_TB
+PROPS["C03"]["mir"] = True
